@@ -1,7 +1,7 @@
 #!/usr/bin/env python3
 """Like run_all_seeds.py, but each seeded change is applied in its own scratch worktree of /repo (under /tmp, removed
 afterwards) and the checks read that worktree (HDL21_REPO), so that several seeds can be swept at a time.  /repo itself is
-not touched.  Usage: tools/run_all_seeds_parallel.py [N workers] -> seeded/SUMMARY.md, meta.json updates."""
+not touched.  Usage: tools/run_all_seeds_parallel.py [N workers [seed ids...]] -> seeded/SUMMARY.md, meta.json updates."""
 import json, os, subprocess, sys
 from concurrent.futures import ThreadPoolExecutor
 ROOT = "/verif"
@@ -45,9 +45,20 @@ def one(sid):
     return row
 
 
-sids = sorted(s for s in os.listdir(f"{ROOT}/seeded") if os.path.isdir(f"{ROOT}/seeded/{s}"))
+allsids = sorted(s for s in os.listdir(f"{ROOT}/seeded") if os.path.isdir(f"{ROOT}/seeded/{s}"))
+sids = [s for s in allsids if s in sys.argv[2:]] if len(sys.argv) > 2 else allsids      # optional: only the named seeds
 with ThreadPoolExecutor(N) as ex:
-    rows = list(ex.map(one, sids))
+    done = {r[0]: r for r in ex.map(one, sids)}
+rows = []
+for sid in allsids:            # the summary always covers every seed: rows of seeds not run now come from their meta.json
+    if sid in done:
+        rows.append(done[sid])
+        continue
+    meta = json.load(open(f"{ROOT}/seeded/{sid}/meta.json"))
+    det = meta.get("my_checks_against_it", {})
+    first = next((l for c, v in det.items() if v.get("exit") == 1 for l in v.get("lines", []) if l.startswith("VIOLATION")), "")
+    key = first.split("key=")[1].split(" ::")[0] if "key=" in first else ""
+    rows.append((sid, meta["breaks_property"], ", ".join(meta.get("caught_by", [])) or "MISSED", key[:110]))
 with open(f"{ROOT}/seeded/SUMMARY.md", "w") as f:
     f.write("| seeded change | breaks | caught by (quick tier) | first failing obligation / check |\n|---|---|---|---|\n")
     for r in rows:
